@@ -88,6 +88,9 @@ def run(ctx):
         n_term += 1 if xc else 0
         ok = all(rr.values()) and bool(rr)
         ctx.add_obligation("R: lr_valid(gocc's tables for %s) = true by vm_compute" % r.name, ok, str(res.get(r.name)) + str(errs[:1]))
+        gc = lrcommon.gen_compare(ctx, r)
+        ctx.add_obligation("K: model generator (LR/Gen.v) = gocc on %s (states, item order, transitions, compiled action/goto rows)" % r.name,
+                           gc is None, str(gc))
         ea = cfggen.Earley(r.g)
         inputs = gen_inputs(r.g, ctx.rng, ninp, extra_terms=["zz"])
         cases = [lrcommon.encode_case(r, [(s, None, False)]) for s in inputs]
